@@ -11,6 +11,7 @@ Oracle: the constraints' mathematical definitions at rational points vs feasibil
 user columns fixed (aux variables by closed form t = atom value; infeasibility confirmed with ECOS).
 """
 import math
+import random
 from fractions import Fraction as F
 
 import numpy as np
@@ -409,15 +410,21 @@ def run(ctx):
     rng = ctx.rng
     ctx.lean = common.lean_check('C07')
     quick = ctx.quick()
+    common.run_regressions(ctx, 'C07', recheck)
     N = 300 if quick else 3000
     cases, outs = [], []
     for entry in common.load_corpus('C07'):
+        if 'regress' in entry:
+            continue
         case, out = run_case(CorpusBuild(entry))
         cases.append(case)
         outs.append(out)
     for i in range(N):
-        b = Build(rng, i, allow_nonconvex=(rng.random() < 0.08), only_ecos=False).build()
+        # every model is built from its own sub-seed, so that a stored case can be built again (recheck)
+        bseed, nonconvex = rng.randrange(1 << 30), rng.random() < 0.08
+        b = Build(random.Random(bseed), i, allow_nonconvex=nonconvex, only_ecos=False).build()
         case, out = run_case(b)
+        case['bseed'], case['nonconvex'] = bseed, nonconvex
         cases.append(case)
         outs.append(out)
     mouts = run_driver([model_line(c) for c in cases])
@@ -476,11 +483,22 @@ def run(ctx):
         trusted=TRUSTED, assumptions=ASSUME)
 
 
+def recheck(r):
+    """build the stored model again from its sub-seed and decide it with many more assignments; the violation it (still) shows"""
+    c = r.get('case', {})
+    if 'bseed' not in c:
+        return None
+    b = Build(random.Random(c['bseed']), 0, allow_nonconvex=c.get('nonconvex', False), only_ecos=False).build()
+    case, out = run_case(b)
+    rng = random.Random(0)
+    for nsig in (8, 150):
+        res = oracle(case, out, rng, nsig=nsig)
+        if res and not res[2]:            # (violations carrying the tag of a recorded finding are that finding)
+            return 'compile: ' + res[0]
+    return None
+
+
 def replay(obj):
-    import random
-    r = obj['replay']
     print('what:', obj['what'])
-    print('the replay stores the serialised constraint state; re-run the check with the same seed to rebuild the objects:')
-    print('  VERIF_SEED=%d /venv/bin/python harness/vcheck.py C07 --tier %s' % (obj['seed'], obj['tier']))
-    print(common.canon_json(r.get('detail', {})))
+    print(common.canon_json(obj['replay'].get('detail', {})))
     return 1
